@@ -225,6 +225,14 @@ func (s *Stream) decode(r io.Reader, parsedTypes TypeMap, p2p bool) (TypeMap,
 			return nil, ErrRecordTooLarge
 		}
 
+		// A length that doesn't fit into an int64 can never be
+		// satisfied by the remaining stream. It must be rejected
+		// explicitly, as it would turn into a negative byte count for
+		// the copy below, which then reads nothing and succeeds.
+		if length > math.MaxInt64 {
+			return nil, ErrRecordTooLarge
+		}
+
 		// Search the records known to the stream for this type. We'll
 		// begin the search and recordIdx and walk forward until we find
 		// it or the next record's type is larger.
